@@ -63,8 +63,7 @@ inline std::string parse_strict(const std::vector<uint8_t>& b, WaveFormat& f, st
 		out.push_back(en);
 	}
 	if (expect != b.size()) { e << "file has " << b.size() << " bytes but the last member ends at " << expect; return e.str(); }
-	for (uint32_t k = 1; k < out.size(); ++k)
-		if (refvol::icmp(out[k - 1].name, out[k].name) >= 0) { e << "names '" << out[k - 1].name << "','" << out[k].name << "' not in ascending case-insensitive order"; return e.str(); }
+	{ std::vector<std::string> listed; for (auto& en : out) listed.push_back(en.name); std::string oe = refvol::order_consistent(listed); if (!oe.empty()) { e << oe; return e.str(); } }
 	return "";
 }
 
